@@ -29,13 +29,45 @@ var (
 	containers = []Val{{T: "list", N: 0}, {T: "list", N: 2}, {T: "map", N: 0}, {T: "map", N: 1}}
 )
 
-func pct(rt *rapid.T, p int, label string) bool { return rapid.IntRange(0, 99).Draw(rt, label) < p }
+// rapid's integer generators (IntRange, SampledFrom) favour small values, which
+// distorts every probability chosen below; its Bool is a fair bit. All choices
+// are therefore built from fair bits. All-false bits (what shrinking moves
+// towards) mean: option off, lower bound, first element.
+
+func bits(rt *rapid.T, n int, label string) int {
+	u := 0
+	for i := 0; i < n; i++ {
+		u <<= 1
+		if rapid.Bool().Draw(rt, label) {
+			u |= 1
+		}
+	}
+	return u
+}
+
+// pct is true with a probability of about p percent.
+func pct(rt *rapid.T, p int, label string) bool {
+	return bits(rt, 5, label) >= 32-(p*32+50)/100
+}
+
+// uni draws from lo..hi, (nearly) uniformly.
+func uni(rt *rapid.T, lo, hi int, label string) int {
+	n := 7
+	if hi-lo >= 16 {
+		n = 11
+	}
+	return lo + bits(rt, n, label)%(hi-lo+1)
+}
+
+func pick[E any](rt *rapid.T, from []E, label string) E {
+	return from[uni(rt, 0, len(from)-1, label)]
+}
 
 func genPattern(rt *rapid.T) string {
-	n := rapid.SampledFrom([]int{1, 2, 2, 2, 3}).Draw(rt, "plen")
+	n := pick(rt, []int{1, 2, 2, 2, 3}, "plen")
 	segs := make([]string, n)
 	for i := range segs {
-		segs[i] = rapid.SampledFrom(patSegs).Draw(rt, "pseg")
+		segs[i] = pick(rt, patSegs, "pseg")
 	}
 	return strings.Join(segs, ".")
 }
@@ -44,18 +76,18 @@ func genPattern(rt *rapid.T) string {
 // first one (copy, one segment generalised or specialised), so that two
 // patterns of one rule match the same event.
 func genKinds(rt *rapid.T) []string {
-	n := rapid.SampledFrom([]int{1, 1, 2, 2, 3}).Draw(rt, "npat")
+	n := pick(rt, []int{1, 1, 2, 2, 3}, "npat")
 	out := []string{genPattern(rt)}
 	for len(out) < n {
 		if pct(rt, 55, "vary") {
 			segs := strings.Split(out[0], ".")
-			i := rapid.IntRange(0, len(segs)-1).Draw(rt, "vseg")
-			switch rapid.IntRange(0, 2).Draw(rt, "vhow") {
+			i := uni(rt, 0, len(segs)-1, "vseg")
+			switch uni(rt, 0, 2, "vhow") {
 			case 0: // exact copy
 			case 1:
 				segs[i] = "*"
 			case 2:
-				segs[i] = rapid.SampledFrom(evSegs).Draw(rt, "vlit")
+				segs[i] = pick(rt, evSegs, "vlit")
 			}
 			out = append(out, strings.Join(segs, "."))
 		} else {
@@ -66,28 +98,28 @@ func genKinds(rt *rapid.T) []string {
 }
 
 func genReq(rt *rapid.T, allowContainers bool) Val {
-	k := rapid.IntRange(0, 99).Draw(rt, "reqkind")
+	k := uni(rt, 0, 99, "reqkind")
 	switch {
 	case k < 25:
 		return Val{T: "nil"}
 	case k < 75:
-		return rapid.SampledFrom(scalars).Draw(rt, "reqscalar")
+		return pick(rt, scalars, "reqscalar")
 	case k < 92 || !allowContainers:
-		return Val{T: "re", S: rapid.SampledFrom(regexes).Draw(rt, "regex")}
+		return Val{T: "re", S: pick(rt, regexes, "regex")}
 	default:
-		return rapid.SampledFrom(containers).Draw(rt, "reqcont")
+		return pick(rt, containers, "reqcont")
 	}
 }
 
 func genEvVal(rt *rapid.T, allowContainers bool) Val {
-	k := rapid.IntRange(0, 99).Draw(rt, "evkind")
+	k := uni(rt, 0, 99, "evkind")
 	switch {
 	case k < 8:
 		return Val{T: "nil"}
 	case k < 92 || !allowContainers:
-		return rapid.SampledFrom(scalars).Draw(rt, "evscalar")
+		return pick(rt, scalars, "evscalar")
 	default:
-		return rapid.SampledFrom(containers).Draw(rt, "evcont")
+		return pick(rt, containers, "evcont")
 	}
 }
 
@@ -103,11 +135,11 @@ func genSubset(rt *rapid.T, from []string, p int, label string) []string {
 
 func genRule(rt *rapid.T, name string, others []string, allowContainers bool) RuleC {
 	r := RuleC{Name: name, Kinds: genKinds(rt)}
-	switch rapid.IntRange(0, 9).Draw(rt, "nscope") {
+	switch uni(rt, 0, 9, "nscope") {
 	case 0, 1, 2:
-		r.Scopes = []string{rapid.SampledFrom(scopeSet).Draw(rt, "scope1")}
+		r.Scopes = []string{pick(rt, scopeSet, "scope1")}
 	case 3:
-		r.Scopes = []string{rapid.SampledFrom(scopeSet).Draw(rt, "scope1"), rapid.SampledFrom(scopeSet).Draw(rt, "scope2")}
+		r.Scopes = []string{pick(rt, scopeSet, "scope1"), pick(rt, scopeSet, "scope2")}
 	}
 	if pct(rt, 55, "hasstate") {
 		r.HasState = true
@@ -115,7 +147,7 @@ func genRule(rt *rapid.T, name string, others []string, allowContainers bool) Ru
 			r.State = append(r.State, KV{k, genReq(rt, allowContainers)})
 		}
 	}
-	r.Prio = rapid.IntRange(0, 3).Draw(rt, "prio")
+	r.Prio = uni(rt, 0, 3, "prio")
 	r.Supp = genSubset(rt, others, 18, "supp")
 	if pct(rt, 8, "suppunknown") {
 		r.Supp = append(r.Supp, "zz")
@@ -138,33 +170,33 @@ func genScope(rt *rapid.T, e *EventC) {
 // genEvent draws an event; kind and state are often derived from a rule so
 // that matches are frequent.
 func genEvent(rt *rapid.T, rules []RuleC, allowContainers bool) EventC {
-	e := EventC{Name: rapid.SampledFrom([]string{"e1", "e1", "e2"}).Draw(rt, "ename")}
+	e := EventC{Name: pick(rt, []string{"e1", "e1", "e2"}, "ename")}
 	var from *RuleC
 	if pct(rt, 65, "fromrule") {
-		from = &rules[rapid.IntRange(0, len(rules)-1).Draw(rt, "fromidx")]
+		from = &rules[uni(rt, 0, len(rules)-1, "fromidx")]
 	}
 	if from != nil {
-		p := from.Kinds[rapid.IntRange(0, len(from.Kinds)-1).Draw(rt, "frompat")]
+		p := from.Kinds[uni(rt, 0, len(from.Kinds)-1, "frompat")]
 		for _, s := range strings.Split(p, ".") {
 			if s == "*" {
-				s = rapid.SampledFrom(evSegs).Draw(rt, "star")
+				s = pick(rt, evSegs, "star")
 			}
 			e.Kind = append(e.Kind, s)
 		}
 		if pct(rt, 10, "kindmut") {
-			e.Kind[rapid.IntRange(0, len(e.Kind)-1).Draw(rt, "kmi")] = rapid.SampledFrom(evSegs).Draw(rt, "kmv")
+			e.Kind[uni(rt, 0, len(e.Kind)-1, "kmi")] = pick(rt, evSegs, "kmv")
 		}
 		if pct(rt, 5, "kindlen") {
 			if len(e.Kind) > 1 && pct(rt, 50, "shorter") {
 				e.Kind = e.Kind[:len(e.Kind)-1]
 			} else if len(e.Kind) < 3 {
-				e.Kind = append(e.Kind, rapid.SampledFrom(evSegs).Draw(rt, "kext"))
+				e.Kind = append(e.Kind, pick(rt, evSegs, "kext"))
 			}
 		}
 	} else {
-		n := rapid.SampledFrom([]int{1, 2, 2, 2, 3}).Draw(rt, "klen")
+		n := pick(rt, []int{1, 2, 2, 2, 3}, "klen")
 		for i := 0; i < n; i++ {
-			e.Kind = append(e.Kind, rapid.SampledFrom(evSegs).Draw(rt, "kseg"))
+			e.Kind = append(e.Kind, pick(rt, evSegs, "kseg"))
 		}
 		if pct(rt, 2, "dotted") {
 			// a single segment which contains the separator (possible through the Go API only)
@@ -215,9 +247,9 @@ func genEvent(rt *rapid.T, rules []RuleC, allowContainers bool) EventC {
 }
 
 func genNormal(rt *rapid.T) Case {
-	c := Case{Workers: rapid.IntRange(1, 4).Draw(rt, "workers")}
+	c := Case{Workers: uni(rt, 1, 4, "workers")}
 	allowContainers := pct(rt, 20, "containers")
-	n := rapid.IntRange(1, 8).Draw(rt, "nrules")
+	n := uni(rt, 1, 8, "nrules")
 	names := make([]string, n)
 	for i := range names {
 		names[i] = fmt.Sprintf("r%d", i)
@@ -231,7 +263,7 @@ func genNormal(rt *rapid.T) Case {
 		}
 		c.Rules = append(c.Rules, genRule(rt, names[i], others, allowContainers))
 	}
-	ne := rapid.IntRange(1, 6).Draw(rt, "nevents")
+	ne := uni(rt, 1, 6, "nevents")
 	for i := 0; i < ne; i++ {
 		c.Events = append(c.Events, genEvent(rt, c.Rules, allowContainers))
 	}
@@ -241,15 +273,15 @@ func genNormal(rt *rapid.T) Case {
 
 // genWide: 60..70 state rules which all sit on one leaf of the index.
 func genWide(rt *rapid.T) Case {
-	c := Case{Workers: rapid.IntRange(1, 4).Draw(rt, "workers"), Wide: true}
-	n := rapid.IntRange(60, 70).Draw(rt, "nwide")
-	pat := rapid.SampledFrom([]string{"a", "a.b", "*", "a.*", "*.b"}).Draw(rt, "wpat")
-	key := rapid.SampledFrom(keys).Draw(rt, "wkey")
+	c := Case{Workers: uni(rt, 1, 4, "workers"), Wide: true}
+	n := uni(rt, 60, 70, "nwide")
+	pat := pick(rt, []string{"a", "a.b", "*", "a.*", "*.b"}, "wpat")
+	key := pick(rt, keys, "wkey")
 	vals := []Val{{T: "nil"}, {T: "num", N: 1}, {T: "str", S: "a"}, {T: "bool", B: true}, {T: "re", S: "^a"}, {T: "num", N: 2.5}}
 	for i := 0; i < n; i++ {
-		r := RuleC{Name: fmt.Sprintf("w%d", i), Kinds: []string{pat}, HasState: true, Prio: rapid.IntRange(0, 3).Draw(rt, "wprio")}
+		r := RuleC{Name: fmt.Sprintf("w%d", i), Kinds: []string{pat}, HasState: true, Prio: uni(rt, 0, 3, "wprio")}
 		if pct(rt, 92, "wreq") {
-			r.State = []KV{{key, rapid.SampledFrom(vals).Draw(rt, "wval")}}
+			r.State = []KV{{key, pick(rt, vals, "wval")}}
 		}
 		if pct(rt, 4, "wsecond") {
 			r.State = append(r.State, KV{"kx", Val{T: "nil"}})
@@ -261,20 +293,20 @@ func genWide(rt *rapid.T) Case {
 			r.Scopes = []string{"s"}
 		}
 		if pct(rt, 3, "wsupp") {
-			o := rapid.IntRange(0, n-1).Draw(rt, "wsuppidx")
+			o := uni(rt, 0, n-1, "wsuppidx")
 			if o != i {
 				r.Supp = []string{fmt.Sprintf("w%d", o)}
 			}
 		}
 		c.Rules = append(c.Rules, r)
 	}
-	ne := rapid.IntRange(1, 4).Draw(rt, "nevents")
+	ne := uni(rt, 1, 4, "nevents")
 	evVals := []Val{{T: "num", N: 1}, {T: "str", S: "a"}, {T: "bool", B: true}, {T: "num", N: 2.5}, {T: "str", S: "b"}, {T: "nil"}}
 	for i := 0; i < ne; i++ {
-		e := EventC{Name: rapid.SampledFrom([]string{"e1", "e2"}).Draw(rt, "ename")}
+		e := EventC{Name: pick(rt, []string{"e1", "e2"}, "ename")}
 		for _, s := range strings.Split(pat, ".") {
 			if s == "*" {
-				s = rapid.SampledFrom(evSegs).Draw(rt, "star")
+				s = pick(rt, evSegs, "star")
 			}
 			e.Kind = append(e.Kind, s)
 		}
@@ -282,7 +314,7 @@ func genWide(rt *rapid.T) Case {
 			e.Kind = []string{"c", "c", "c"}
 		}
 		if pct(rt, 90, "wevkey") {
-			e.State = []KV{{key, rapid.SampledFrom(evVals).Draw(rt, "wevval")}}
+			e.State = []KV{{key, pick(rt, evVals, "wevval")}}
 		}
 		if pct(rt, 30, "wevkx") {
 			e.State = append(e.State, KV{"kx", Val{T: "num", N: 1}})
@@ -348,36 +380,47 @@ func smallEvents() [][]string {
 }
 
 // enumPairs yields every ordered pair of rules whose pattern lists come from
-// patternLists x every ordered two-event history sharing the name "e". Every
-// procEvery-th case also runs on a 1-worker processor, with one of four
-// suppression relations between the two rules.
+// patternLists (the second rule with each of the state matches nil, {k1:NULL},
+// {k1:1}) x every ordered two-event history sharing the name "e" (each event
+// with each of the states {}, {k1:1}, {k1:2}). Every procEvery-th case also
+// runs on a 1-worker processor, with one of four suppression relations between
+// the two rules (procEvery is coprime to the shard counts, so every shard gets
+// its share).
 func enumPairs(maxPatterns, procEvery int) func(yield func(Case) bool) {
 	return func(yield func(Case) bool) {
 		lists := patternLists([]string{"a", "*"}, maxPatterns)
 		events := smallEvents()
+		ruleStates := []RuleC{{}, {HasState: true, State: []KV{{"k1", Val{T: "nil"}}}}, {HasState: true, State: []KV{{"k1", Val{T: "num", N: 1}}}}}
+		evStates := [][]KV{nil, {{"k1", Val{T: "num", N: 1}}}, {{"k1", Val{T: "num", N: 2}}}}
 		n := 0
 		for _, k0 := range lists {
 			for _, k1 := range lists {
-				for _, e0 := range events {
-					for _, e1 := range events {
-						c := Case{Workers: 1, NoProc: true, Note: "enum",
-							Rules:  []RuleC{{Name: "r0", Kinds: k0}, {Name: "r1", Kinds: k1}},
-							Events: []EventC{{Name: "e", Kind: e0, DefScope: true}, {Name: "e", Kind: e1, DefScope: true}}}
-						if n%procEvery == 0 {
-							c.NoProc = false
-							switch (n / procEvery) % 4 {
-							case 1:
-								c.Rules[0].Supp = []string{"r1"}
-							case 2:
-								c.Rules[1].Supp = []string{"r0"}
-							case 3:
-								c.Rules[0].Supp = []string{"r1"}
-								c.Rules[1].Supp = []string{"r0"}
+				for _, rs := range ruleStates {
+					for _, e0 := range events {
+						for _, e1 := range events {
+							for _, s0 := range evStates {
+								for _, s1 := range evStates {
+									c := Case{Workers: 1, NoProc: true, Note: "enum",
+										Rules:  []RuleC{{Name: "r0", Kinds: k0}, {Name: "r1", Kinds: k1, HasState: rs.HasState, State: rs.State}},
+										Events: []EventC{{Name: "e", Kind: e0, State: s0, DefScope: true}, {Name: "e", Kind: e1, State: s1, DefScope: true}}}
+									if n%procEvery == 0 {
+										c.NoProc = false
+										switch (n / procEvery) % 4 {
+										case 1:
+											c.Rules[0].Supp = []string{"r1"}
+										case 2:
+											c.Rules[1].Supp = []string{"r0"}
+										case 3:
+											c.Rules[0].Supp = []string{"r1"}
+											c.Rules[1].Supp = []string{"r0"}
+										}
+									}
+									n++
+									if !yield(c) {
+										return
+									}
+								}
 							}
-						}
-						n++
-						if !yield(c) {
-							return
 						}
 					}
 				}
@@ -388,17 +431,16 @@ func enumPairs(maxPatterns, procEvery int) func(yield func(Case) bool) {
 
 func TestExhaustive(t *testing.T) {
 	// quick: rules with one pattern; thorough: up to two patterns per rule
-	maxPatterns, procEvery, name := 1, 4, "rule-pairs-1-pattern"
+	maxPatterns, procEvery, name := 1, 3, "rule-pairs-1-pattern"
 	if hx.Thorough() {
-		maxPatterns, procEvery, name = 2, 8, "rule-pairs-2-patterns"
+		maxPatterns, procEvery, name = 2, 11, "rule-pairs-2-patterns"
 	}
-	total := hx.Enumerate(t, name, enumPairs(maxPatterns, procEvery), runCase)
-	_ = total
+	hx.Enumerate(t, name, enumPairs(maxPatterns, procEvery), runCase)
 	hx.E.Exhaustive(name, map[string]interface{}{
-		"rules":             "all ordered pairs of rules",
+		"rules":             "all ordered pairs of rules; the second rule with state match nil, {k1:NULL}, {k1:1}",
 		"patterns_per_rule": fmt.Sprintf("1..%d (ordered, duplicates included)", maxPatterns),
 		"pattern_segments":  "1..2 over {a,*}",
-		"events":            "all ordered two-event histories sharing one name, kinds of 1..2 segments over {a,b}",
+		"events":            "all ordered two-event histories sharing one name, kinds of 1..2 segments over {a,b}, each event with state {}, {k1:1}, {k1:2}",
 		"routes":            fmt.Sprintf("RuleIndex.Match/IsTriggering for all; every %dth case also on a 1-worker processor, cycling through the 4 suppression relations between the two rules", procEvery),
 	})
 }
